@@ -17,7 +17,9 @@
    Exceptions: ValueError -> EValue, AssertionError -> EAssert, IndexError -> EIndex; TypeError / AttributeError (set_value
    walking through a non-dict), OSError (listdir of a missing directory) and SQLFluffUserError (bad extra config path) have no
    kind of their own in Base/Prelude.v and are all ERuntime.
+   `is_none : V -> bool` stands for `value is None` (the dialect requirement of FluffConfig.__init__).
    Not modelled (stated as assumptions of the correspondence): validate_config_dict (identity on the key vocabulary used),
+   unknown dialect / templater names (SQLFluffUserError from dialect_selector / get_templater_class),
    _resolve_paths_in_config (no `*_path`/`*_dir` keys), symlinks (`Path.resolve`), the derived keys written back into `core`
    after combination (color, rule_allowlist, rule_denylist, dialect_obj, templater_obj and the comma-splitting of
    ignore/warnings) -- the monitor checks those against the effective raw values on the Python side. *)
